@@ -154,9 +154,12 @@ def find_true_caller() -> Optional[types.FrameType]:
     # greenlet's entry point is itself one of our functions)
     caller: Optional[types.FrameType] = sys._getframe(1)
 
-    def is_mine(name: str) -> bool:
-        return name.startswith("stackscope.") and not name.startswith(
-            "stackscope._tests."
+    def is_mine(name: object) -> bool:
+        # (f_globals["__name__"] is usually but not necessarily a string)
+        return (
+            isinstance(name, str)
+            and name.startswith("stackscope.")
+            and not name.startswith("stackscope._tests.")
         )
 
     while caller is not None and (
